@@ -47,6 +47,8 @@ CHECKS = {
     "C20": simlib("C20", LRULE % "C20 (histories of register / register-fallback / unregister over path sets with shared prefixes, adjacent sibling names and the root, mixed with method calls, signals, Introspect and Peer.Ping from a scripted peer to paths inside, beside and below the registered ones; handlers that decline, handle, stay silent, ask for memory once, unregister themselves or another path, or register a new path while a message is offered; allocation failures in the API calls and in dispatch)",
                   probes=["offer_with_several_candidates", "unknown_method", "unknown_object", "default_introspect", "register_occupied", "register_nomemory", "handler_need_memory",
                           "redispatch_after_need_memory", "candidate_removed_during_offer", "handler_unregisters_self", "handler_registers_new", "builtin_peer_ping"]),
+    "C08": simlib("C08", LRULE % "C08 (SASL command sequences over AUTH with every mechanism / unknown mechanisms / with and without initial response, DATA valid / wrong / non-hex, CANCEL, ERROR, BEGIN, NEGOTIATE_UNIX_FD, unknown, empty, non-ASCII and NUL-carrying lines, lines up to 24 KiB and unterminated floods, message bytes before and after BEGIN, in arbitrary chunking; socket credentials equal to / different from the server owner or absent; every allowed-mechanism subset, anonymous on/off, unix-user function absent / allow-all / allow-one / deny-all; cookie responses correct, wrong hash, no blank, another cookie, wrong composition, empty)",
+                  probes=["model_authenticated", "admitted", "admission_refused", "cookie_challenge", "cookie_authenticated", "rejection_bound_hit", "line_over_16k", "message_after_begin", "bad_credentials_byte"]),
     "C11": simlib("C11", LRULE % "C11 stream (1-8 valid messages of mixed sizes and byte orders, optionally an invalid one and further bytes; handshake and first message in one write or apart; partitions: all-one-byte, single cut, header-biased cuts, random cuts; independent read-size knob; unsplit fault-free control delivery in the same run)",
                   probes=["stream_with_invalid_message", "multi_message_stream"]),
     "SMOKE": simbus("SMOKE", RULE % "smoke", quick_s=5, thorough_s=10),
@@ -194,6 +196,22 @@ MANIFEST_TEXT = {
                note="Trusted base: simulated kernel, independent codec for the peer, the path-map model. Pinned where the statement is silent: the handlers offered a message are those registered when "
                     "its dispatch started; one removed meanwhile is skipped, one added is not offered. One listed known finding (UnknownMethod sent where UnknownObject is due) is recognised by "
                     "its exact substitution inside the oracle. Sampling: evidence, not proof."),
+    "C08": _mt("Seeded search over handshakes against a real DBusServer / server-side DBusConnection: generated SASL command sequences (AUTH with each mechanism, unknown mechanisms, with and "
+               "without initial response; DATA valid / wrong / non-hex; CANCEL, ERROR, BEGIN, NEGOTIATE_UNIX_FD; unknown, empty, non-ASCII and NUL-carrying lines; lines of 3-24 KiB and "
+               "unterminated floods; message bytes before and after BEGIN) in arbitrary chunking with short reads / EINTR / spurious readiness, under every combination of socket "
+               "credentials (server owner, root, other user, none), allowed-mechanism subset, anonymous on/off and unix-user function (absent, allow-all, allow-one, deny-all); cookie runs use "
+               "a real keyring in a scratch home and correct / wrong-hash / no-blank / other-cookie / wrong-composition / empty responses computed with the codec's own SHA-1. Oracle: the "
+               "specification's server state machine (AuthModel, sim/harness/libauth.cc) is run over the very bytes the peer wrote and every response line is compared (REJECTED with "
+               "exactly the allowed mechanisms, ERROR, DATA, OK <guid>); the connection counts as authenticated iff the model reached BEGIN after a completed permitted mechanism AND the "
+               "admission rule admits that identity; the uid / anonymity / pid the application sees equal what the mechanism established; the application receives exactly the complete "
+               "messages that follow the accepted BEGIN (no handshake byte becomes message data); BEGIN out of place, the 6th rejection or a line beyond 16 KiB end the connection, and "
+               "nothing else does.",
+               "DESIGN.md section 4 C08, Appendix D", "deterministic simulation, seeded input and chunking search, reference state machine oracle over the recorded byte history",
+               note="Trusted base: simulated kernel (stream, SO_PEERCRED, NSS), the AuthModel and SHA-1 of the independent codec, the real file system for the scratch keyring. Pinned where the "
+                    "specification is silent: the rejection bound (6), identities that are not plain digits (either verdict accepted, never for another uid), NEGOTIATE_UNIX_FD answered "
+                    "AGREE or ERROR, lines between 14 and 18 KiB (either verdict). Not covered: allocation failures during the handshake (a connection lost to one is legitimate; C14 owns "
+                    "OOM), cookie ageing across conversations, the daemon-level half (<allow user=...> admission is exercised by C06's connect rules; GetConnectionCredentials is not "
+                    "compared). Sampling: evidence, not proof."),
 }
 
 NOT_APPLICABLE = [
@@ -203,6 +221,6 @@ NOT_APPLICABLE = [
 ]
 
 # properties whose check is planned but not finished: not claimed, and listed in not_applicable with that reason
-NOT_CLAIMED_YET = ["C08", "C15", "C19"]
+NOT_CLAIMED_YET = ["C15", "C19"]
 for _p in NOT_CLAIMED_YET:
     NOT_APPLICABLE.append({"property_id": _p, "reason": "not claimed yet: the simulation check for this property is designed (DESIGN.md section 4) but not finished; it is applicable to the technique and will be claimed when its check passes the determinism and sensitivity gates"})
